@@ -325,6 +325,26 @@ def pyDiv (a b : Val) : R Val :=
       | _, .opaque _ => U "div-opaque"
       | _, _ => .error .typeError
 
+def repList {α : Type} (xs : List α) (n : Int) : List α := (List.replicate n.toNat xs).flatten
+
+/-- length of a sequence value (0 for everything else) -/
+def seqLen (h : Heap) : Val → Nat
+  | .str s => s.length
+  | .tuple s => s.length
+  | .ref x => (match h.get? x with | some (.list xs) => xs.length | _ => 0)
+  | _ => 0
+
+/-- the repetition count of `a * b` when one side is an int / bool -/
+def repCount (a b : Val) : Int :=
+  match toInt? a, toInt? b with | some n, _ => n | _, some n => n | _, _ => 0
+
+/-- the model does not build repetitions beyond a million elements, and CPython refuses a count that does not fit a
+    machine index (OverflowError, also when negative) -/
+def repUnmodelled (h : Heap) (a b : Val) : Option String :=
+  if repCount a b ≥ 9223372036854775808 ∨ repCount a b < -9223372036854775808 then some "repeat-index-overflow"
+  else if max (seqLen h a) (seqLen h b) * (repCount a b).toNat > 1000000 then some "repeat-huge"
+  else none
+
 /-- native `a * b` (used by the compound assignments only) -/
 def pyMulNative (h : Heap) (a b : Val) : R (Val × Heap) :=
   match toInt? a, toInt? b with
@@ -333,34 +353,26 @@ def pyMulNative (h : Heap) (a b : Val) : R (Val × Heap) :=
     match toDec? a, toDec? b with
     | some x, some y => (liftDec (Dec.mul x y)).map (·, h)
     | _, _ =>
-      let rep {α : Type} (xs : List α) (n : Int) : List α :=
-        (List.replicate n.toNat xs).flatten
-      let huge (len : Nat) (n : Int) : Bool := decide (len * n.toNat > 1000000)
-      let lenOf : Val → Nat := fun v => match v with
-        | .str s => s.length | .tuple s => s.length
-        | .ref x => (match h.get? x with | some (.list xs) => xs.length | _ => 0)
-        | _ => 0
-      let cnt : Int := match toInt? a, toInt? b with | some n, _ => n | _, some n => n | _, _ => 0
-      -- a repetition count that does not fit a machine index is an OverflowError in CPython (also when negative)
-      if cnt ≥ 9223372036854775808 ∨ cnt < -9223372036854775808 then U "repeat-index-overflow" else
-      if huge (max (lenOf a) (lenOf b)) cnt then U "repeat-huge" else
+      match repUnmodelled h a b with
+      | some why => U why
+      | none =>
       match a, b with
-      | .str s, .int n => .ok (.str (rep s n), h)
-      | .str s, .bool n => .ok (.str (rep s (boolInt n)), h)
-      | .int n, .str s => .ok (.str (rep s n), h)
-      | .bool n, .str s => .ok (.str (rep s (boolInt n)), h)
-      | .tuple s, .int n => .ok (.tuple (rep s n), h)
-      | .int n, .tuple s => .ok (.tuple (rep s n), h)
+      | .str s, .int n => .ok (.str (repList s n), h)
+      | .str s, .bool n => .ok (.str (repList s (boolInt n)), h)
+      | .int n, .str s => .ok (.str (repList s n), h)
+      | .bool n, .str s => .ok (.str (repList s (boolInt n)), h)
+      | .tuple s, .int n => .ok (.tuple (repList s n), h)
+      | .int n, .tuple s => .ok (.tuple (repList s n), h)
       | .ref x, n =>
         (match h.get? x, toInt? n with
          | some (.list xs), some k =>
-           let (h', addr) := h.alloc (.list (rep xs k))
+           let (h', addr) := h.alloc (.list (repList xs k))
            .ok (.ref addr, h')
          | _, _ => .error .typeError)
       | n, .ref x =>
         (match h.get? x, toInt? n with
          | some (.list xs), some k =>
-           let (h', addr) := h.alloc (.list (rep xs k))
+           let (h', addr) := h.alloc (.list (repList xs k))
            .ok (.ref addr, h')
          | _, _ => .error .typeError)
       | .opaque _, _ => U "mul-opaque"
